@@ -43,6 +43,7 @@ def translate(repo_root='/repo'):
     tr.lets = {'gap': ('var', 'gap'), 'width': ('var', 'width')}
     curves = {}
     seen = {'poly': None, 'guard': None, 'clip': None, 'ret': None}
+    fg_validity = None
     for s in fg.body:
         src = ast.unparse(s)
         if isinstance(s, ast.Assign) and isinstance(s.targets[0], ast.Name) and isinstance(s.value, ast.Call):
@@ -83,6 +84,13 @@ def translate(repo_root='/repo'):
             if (la, lb) != ('poly.bounds[0]', 'poly.bounds[2]') or fa != fb:
                 raise Untranslatable("over-width guard of from_groove: " + ast.unparse(t))
             seen['guard'] = fa
+        elif isinstance(s, ast.If) and 'is_valid' in src:
+            # the validity guard behind the clip: which conditions make the constructor refuse
+            if not (seen['clip'] and isinstance(s.body[0], ast.Raise) and len(s.body) == 1 and not s.orelse):
+                raise Untranslatable("validity guard of from_groove")
+            fg_validity = sorted(c.replace('polygon', 'X') for c in map(ast.unparse, s.test.values)) if isinstance(s.test, ast.BoolOp) and isinstance(s.test.op, ast.Or) else None
+            if fg_validity is None:
+                raise Untranslatable("validity guard of from_groove: " + ast.unparse(s.test))
         elif isinstance(s, ast.Return):
             if 'cross_section=refine_cross_section(polygon)' not in src:
                 raise Untranslatable("return of from_groove: " + src)
@@ -106,8 +114,21 @@ def translate(repo_root='/repo'):
     tq = ast.parse(open(os.path.join(repo_root, 'pyroll/core/roll_pass/hookimpls/profile.py')).read())
     g2 = _find_func(tq, 'cross_section')
     src = [ast.unparse(s) for s in g2.body]
-    if src[0] != "cs = helpers.out_cross_section(self.roll_pass, self.width)" or src[-1] != "return cs" or len(src) != 3:
+    if src[0] != "cs = helpers.out_cross_section(self.roll_pass, self.width)" or src[-1] != "return cs" or len(src) not in (3, 4):
         raise Untranslatable("OutProfile.cross_section changed")
+    pass_validity = None
+    if len(src) == 4:
+        v = g2.body[2]
+        if not (isinstance(v, ast.If) and isinstance(v.body[0], ast.Raise) and len(v.body) == 1 and not v.orelse and isinstance(v.test, ast.BoolOp)
+                and isinstance(v.test.op, ast.Or)):
+            raise Untranslatable("validity guard of OutProfile.cross_section")
+        pass_validity = sorted(c.replace('cs', 'X') for c in map(ast.unparse, v.test.values))
+    # the constructor refuses a clipped polygon that is no polygon / empty / invalid / not simple; the pass gets a polygon from the same clip and must refuse
+    # under the same conditions (the type test is the constructor's own business)
+    norm = lambda l: None if l is None else [c for c in l if 'isinstance' not in c]     # noqa
+    if norm(fg_validity) != norm(pass_validity):
+        raise Untranslatable(f"validity guards differ: from_groove refuses on {norm(fg_validity)}, the pass on {norm(pass_validity)}")
+    out['validity_guard'] = norm(pass_validity)
     t = g2.body[1]
     if not (isinstance(t, ast.If) and isinstance(t.body[0], ast.Raise) and isinstance(t.test, ast.Compare) and isinstance(t.test.ops[0], ast.Lt)
             and ast.unparse(t.test.comparators[0]) == 'self.width'):
